@@ -5,6 +5,7 @@ from hypothesis import strategies as st
 
 from pbt import refcodec, spec_table, strategies as S
 from pbt.lib import call, frame, header, make_header
+from pbt import entry
 from pbt.runner import Component, Violation
 
 PROPERTY_ID = 'C02'
@@ -82,6 +83,7 @@ def check(case, obj=None):
         raise Violation('reencode', 're-encoding the decoded header gives %d bytes '
                         'differing from the original %d bytes' %
                         (len(again), len(data)))
+    entry.frame_entries(obj, ch, data, out)
 
 
 def check_sequence(case):
